@@ -25,7 +25,13 @@ fn placer(case: &Value) -> Value {
     let mut lib = t::library::Library::new("plib");
     let mut cellmap: std::collections::HashMap<String, Ptr<t::cell::Cell>> = Default::default();
     for (name, wh) in case["cells"].as_object().unwrap() {
-        let lay = t::layout::Layout::new(name.clone(), 0, t::outline::Outline::rect(wh[0].as_i64().unwrap() as isize, wh[1].as_i64().unwrap() as isize).unwrap());
+        // the cell's outline: stepped where the specification says so (its bounding box is [w, h]), a rectangle otherwise
+        let outline = match case.get("outlines").and_then(|o| o.get(name)) {
+            Some(o) => { let x: Vec<isize> = ivec(&o["x"]).into_iter().map(|v| v as isize).collect(); let y: Vec<isize> = ivec(&o["y"]).into_iter().map(|v| v as isize).collect();
+                         t::outline::Outline::new(&x, &y).expect("harness: outline") }
+            None => t::outline::Outline::rect(wh[0].as_i64().unwrap() as isize, wh[1].as_i64().unwrap() as isize).unwrap(),
+        };
+        let lay = t::layout::Layout::new(name.clone(), 0, outline);
         let p = lib.cells.add(t::cell::Cell::from(lay));
         cellmap.insert(name.clone(), p);
     }
@@ -117,8 +123,8 @@ fn track_ops(case: &Value) -> Value {
     }
     json!({"id": id(case), "outcome":"ok", "steps": steps})
 }
-/// abstract stack (specs/tetris/TetrisCompile.tla) -> ValidStack.  Metal i gets raw layer number 10+i, via i (between
-/// metal i and i+1) raw layer number 100+i, so that the compiled elements can be attributed to their stack layer.
+/// abstract stack (specs/tetris/TetrisCompile.tla) -> ValidStack.  Metal i gets raw layer number 10+i with datatypes 0..3, via i
+/// (between metal i and i+1) the SAME number with datatypes 44..47; compiled elements are attributed by layer KEY.
 fn stack_of(s: &Value) -> Result<t::validate::ValidStack, String> {
     use t::stack::*;
     use t::tracks::*;
@@ -137,7 +143,10 @@ fn stack_of(s: &Value) -> Result<t::validate::ValidStack, String> {
     let mut vias = Vec::new();
     for (i, v) in geta(s, "vias").iter().enumerate() {
         vias.push(ViaLayer { name: format!("via{i}"), top: ViaTarget::Metal(i + 1), bot: ViaTarget::Metal(i), size: (geti(v, "sx") as isize, geti(v, "sy") as isize).into(),
-            raw: Some(rawlayers.add(raw::Layer::from_pairs(100 + i as i16, &purps).unwrap())) });
+            // as in real technologies (sky130: met1 68/20, via1 68/44) a via layer SHARES its GDSII layer number with the metal
+            // below it and differs in the datatypes: distinct layers of the stack must stay distinct whatever their numbers
+            raw: Some(rawlayers.add(raw::Layer::from_pairs(10 + i as i16, &[(44, raw::LayerPurpose::Drawing), (45, raw::LayerPurpose::Pin),
+                                                                            (46, raw::LayerPurpose::Label), (47, raw::LayerPurpose::Obstruction)]).unwrap())) });
     }
     Stack { units: raw::Units::Nano, prim: PrimitiveLayer::new((geti(s, "px") as isize, geti(s, "py") as isize).into()), metals, vias,
             rawlayers: Some(Ptr::new(rawlayers)), boundary_layer }.validate().map_err(err_str)
@@ -159,6 +168,9 @@ fn gridded_lib_of(c: &Value) -> (t::library::Library, Ptr<t::cell::Cell>) {
 }
 fn compile(case: &Value) -> Result<Value, String> {
     let stack = stack_of(&case["stack"])?;
+    let nm = geta(&case["stack"], "metals").len();
+    let mkeys: Vec<raw::LayerKey> = (0..nm).map(|i| stack.metal(i).unwrap().raw.unwrap()).collect();
+    let vkeys: Vec<raw::LayerKey> = (0..geta(&case["stack"], "vias").len()).map(|i| stack.via(i).unwrap().raw.unwrap()).collect();
     let (lib, _) = gridded_lib_of(&case["cell"]);
     let rawlib = lib.to_raw(stack).map_err(err_str)?;
     let rl = rawlib.read().map_err(|_| "poisoned".to_string())?;
@@ -168,8 +180,9 @@ fn compile(case: &Value) -> Result<Value, String> {
     let lay = top.layout.as_ref().ok_or("top has no layout")?;
     let mut rects = Vec::new();
     for e in &lay.elems {
-        let num = layers.get(e.layer).map(|l| l.layernum).unwrap_or(-1) as i64;
-        let layer = if num >= 100 { num } else { num - 10 };
+        let _ = &layers;
+        let layer: i64 = if let Some(i) = mkeys.iter().position(|k| *k == e.layer) { i as i64 }
+                         else if let Some(i) = vkeys.iter().position(|k| *k == e.layer) { 100 + i as i64 } else { -1 };
         match &e.inner {
             raw::Shape::Rect(r) => rects.push(json!({"layer": layer, "rect": [r.p0.x.min(r.p1.x), r.p0.y.min(r.p1.y), r.p0.x.max(r.p1.x), r.p0.y.max(r.p1.y)],
                                                      "raw": [r.p0.x, r.p0.y, r.p1.x, r.p1.y], "net": e.net.clone().unwrap_or_default()})),
